@@ -19,3 +19,5 @@ open Biogo.Properties.C18
 #print axioms phredSolexa_saturates
 #print axioms solexaPhred_nearest
 #print axioms mutual_inverse_from_10
+#print axioms conversion_probabilities_agree_phred
+#print axioms conversion_probabilities_agree_solexa
